@@ -578,12 +578,12 @@ package graphql
 //@   ensures ctx != nil
 //@   nopanic
 //@   pure
-//@ func (*FieldContext).Path [C01]
+//@ func (*FieldContext).Path [C01,C13,C06]
 //@   loop 1: invariant local(path)
 //@   loop 2: invariant i < len(path) && local(path)
 //@   ensures local(res0)
 //@   modifies nothing
-//@ func WithFieldContext [C01]
+//@ func WithFieldContext [C01,C13]
 //@   requires rc != nil
 //@   nopanic
 //@   ensures res0 != nil
@@ -619,6 +619,15 @@ package graphql
 // so wg.Wait() returns once the registered closures have returned. C04: the closures were registered through
 // Concurrently by generated code that proves each of them panic-free (family object$closure), so no goroutine dies.
 // C06: each registered closure's result is stored at its own index.
+//@ trusted (*sync.WaitGroup).Add(n)
+//@   nopanic
+//@   pure
+//@ trusted (*sync.WaitGroup).Done()
+//@   nopanic
+//@   pure
+//@ trusted (*sync.WaitGroup).Wait()
+//@   nopanic
+//@   pure
 //@ trusted field:github.com/99designs/gqlgen/graphql.delayedResult.f(ctx) (m)
 //@   nopanic
 //@ func (*FieldSet).Dispatch [C05,C04,C06]
